@@ -30,6 +30,18 @@ def main():
             if "T" in exp and all(e == "T" for e in exp):
                 incomplete.append(r["qualname"])
             continue
+        if os.environ.get("V"):
+            for o in r["obligations"]:
+                print("      ", o["verdict"], o["id"], o["desc"][:90])
+        SC_X = [c for c in SC.XNAMES.get(r["qualname"], [])]
+        for sub in SC_X:
+            obs = [o for o in r["obligations"] if sub in o["id"] or sub in o["desc"]]
+            bad = [o for o in obs if o["verdict"] != "proved"]
+            n += 1
+            if not bad:
+                unsound.append("%s/%s" % (r["qualname"], sub))
+            print("%-10s %-10s an obligation about '%s' must fail: %s" % ("ok" if bad else "UNSOUND", r["qualname"], sub, bad[0]["id"] if bad else "none fails"))
+        exp = [e for e in exp if e != "X"]
         for i, e in enumerate(exp):
             obs = [o for o in r["obligations"] if o["id"].endswith("ensures[%d]" % i)]
             proved = bool(obs) and all(o["verdict"] == "proved" for o in obs)
